@@ -18,7 +18,7 @@ fn main() {
     run.rule(
         "documents from the C01 enumerators (byte carriers, token-adjacency arrays/dictionaries, object trees, parametric \
          families, stratified reals, id/generation/version/mark/trailer menus) x {xref table, xref stream} x {Document::save_to, Document::save(path) over a fresh and over an existing longer file (file-level documents), \
-         IncrementalDocument::save_to chained 1..3 times on top of lopdf's own file and of a base file written by the reference writer whose cross-reference stream does not hold the highest object number}; each file is read by the independent strict reader, which must accept \
+         IncrementalDocument::save_to chained 1..3 times on top of lopdf's own file and of a base file written by the reference writer whose cross-reference stream does not hold the highest object number; the resulting multi-revision file loaded and saved in full}; each file is read by the independent strict reader, which must accept \
          it, account for every byte and recover the saved objects; non-trivial = file with >= 2 objects or a non-default \
          file-level field; items are distinct by construction",
     );
@@ -221,6 +221,13 @@ fn run_chain_from(mut bytes: Vec<u8>, base: &Document, chain: &[(Edit, usize)]) 
         }
         bytes = out;
         check_file(&bytes, base, &model, step + 2)?;
+    }
+    // the multi-revision file loaded as a plain Document and saved IN FULL: one revision, no trace of the
+    // loaded file's cross-reference chain (Prev, XRefStm) may survive in the new trailer
+    let loaded = util::load(&bytes)?;
+    for table in [true, false] {
+        let full = util::save_bytes(&loaded, table).map_err(|e| format!("full save of the loaded multi-revision file: {}", e))?;
+        check_file(&full, base, &model, 1).map_err(|e| format!("full save ({}) of the loaded {}-revision file: {}", if table { "table" } else { "stream" }, chain.len() + 1, e))?;
     }
     Ok(())
 }
